@@ -26,9 +26,11 @@ func GenTestClasses(t *tape.Tape, pkgs []string) []*JFile {
 			}
 			b = append(b, "    @Test")
 			b = append(b, fmt.Sprintf("    public void test%d() {", j))
-			ns := t.Int(0, 7)
+			ns := t.Int(0, 10)
+			asserts := []string{"assertEquals(%d, value())", "assertTrue(value() > %d)", "assertNotNull(helper.find(%d))", "assertThat(value()).isEqualTo(%d)"}
+			main := asserts[t.Pick(len(asserts))]
 			for k := 0; k < ns; k++ {
-				switch t.Pick(7) {
+				switch t.Pick(9) {
 				case 0:
 					b = append(b, "        System.out.println(\"x\");")
 				case 1:
@@ -37,8 +39,10 @@ func GenTestClasses(t *tape.Tape, pkgs []string) []*JFile {
 					b = append(b, "        assertEquals(true, true);")
 				case 3:
 					b = append(b, "        helper.run();")
+				case 4:
+					b = append(b, "        "+fmt.Sprintf(asserts[t.Pick(len(asserts))], k)+";")
 				default:
-					b = append(b, fmt.Sprintf("        assertEquals(%d, value());", k))
+					b = append(b, "        "+fmt.Sprintf(main, k)+";")
 				}
 			}
 			b = append(b, "    }", "")
